@@ -16,7 +16,8 @@ from dimod.variables import Variables
 import wlib
 from wlib import clist, cnat, cpair
 import gen
-from gen import F, fs, dec_label
+from gen import F, fs, dec_label, LabelTable
+from wlib import cq, cz, cbool
 
 warnings.simplefilter("ignore")
 
@@ -140,17 +141,98 @@ def relabel_map(rng, labels):
     return {a: b, b: a}
 
 
+
+# ---------------------------------------------------------------------------- Heap.v rendering
+HT = None            # LabelTable of the case being run (labels -> nats of the Coq model)
+VTC = {'SPIN': 'SPIN', 'BINARY': 'BINARY', 'INTEGER': 'INTEGER', 'DISCRETE': 'INTEGER', 'REAL': 'REAL'}
+
+
+def L(v):
+    return cnat(HT.idx(v))
+
+
+def pairs_term(m):
+    return clist([cpair(L(a), L(b)) for a, b in m.items()])
+
+
+def poly_term(m):
+    lin = clist([cpair(L(v), cq(F(b))) for v, b in m.linear.items()])
+    quad = clist([f"({L(u)}, {L(v)}, {cq(F(b))})" for (u, v), b in m.quadratic.items()])
+    return f"(mkPoly {cq(F(m.offset))} {lin} {quad})"
+
+
+class HeapLog:
+    """the same history as Heap.v operations; cells exist for owning handles only"""
+
+    def __init__(self):
+        self.cell = {}          # handle index -> heap cell
+        self.ops = []
+        self.hist = []
+        self.tok = {}           # info json / constraint labels / field names -> nat
+
+    def token(self, kind, key, first=1):
+        d = self.tok.setdefault(kind, {})
+        if key not in d:
+            d[key] = len(d) + first
+        return d[key]
+
+    def render(self, obj, kind):
+        if kind in ('bqm', 'qm'):
+            return f"(OModel {poly_term(obj)})"
+        if kind == 'cqm':
+            cons = clist([cpair(cnat(self.token('con', lab(l))), poly_term(c.lhs)) for l, c in obj.constraints.items()])
+            return f"(OCqm {poly_term(obj.objective)} {cons})"
+        if kind == 'vars':
+            return f"(OVars {clist([L(v) for v in obj])})"
+        if kind == 'ss':
+            rec = obj.record
+            names = [n for n in rec.dtype.names if n not in ('sample', 'energy', 'num_occurrences', 'tag')]
+            rows = []
+            for i in range(len(rec)):
+                tag = int(rec['tag'][i]) if 'tag' in rec.dtype.names else 0
+                rows.append(f"(mkRow {clist([cq(F(x)) for x in rec.sample[i]])} {cq(F(rec.energy[i]))} {cz(int(rec.num_occurrences[i]))} "
+                            f"{cnat(tag)} {clist([cq(F(rec[nm][i])) for nm in names])})")
+            info = 0 if obj.info == {} else self.token('info', json.dumps(obj.info, sort_keys=True, default=str))
+            fields = clist([cnat(1 if nm == 'extra' else self.token('field', nm, first=2)) for nm in names])
+            return (f"(OSet (mkSS {clist([L(v) for v in obj.variables])} {VTC[obj.vartype.name]} {clist(rows)} {cnat(info)} {fields}))")
+        raise ValueError(kind)
+
+    def new(self, hi, handles):
+        self.cell[hi] = len(self.cell)
+        self.ops.append(f"(HNew {self.render(handles[hi].obj, handles[hi].kind)})")
+
+    def copy(self, src_hi, new_hi, handles, term=None):
+        self.cell[new_hi] = len(self.cell)
+        if term is None:
+            term = f"(CGiven {self.render(handles[new_hi].obj, handles[new_hi].kind)})"
+        self.ops.append(f"(HCopy {cnat(self.cell[src_hi])} {term.replace('@SRC@', cnat(self.cell[src_hi]))})")
+
+    def edit(self, hi, handles, term=None):
+        if term is None:
+            term = f"(IAny (fun _ => {self.render(handles[hi].obj, handles[hi].kind)}))"
+        self.ops.append(f"(HEdit {cnat(self.cell[hi])} {term})")
+
+    def flush(self, handles):
+        obs = [cpair(cnat(c), self.render(handles[hi].obj, handles[hi].kind)) for hi, c in self.cell.items()]
+        self.hist.append(cpair(clist(self.ops), clist(obs)))
+        self.ops = []
+
+
+def with_terms(out, terms):
+    return [(n, f, terms.get(n)) for n, f in out]
+
 # ---------------------------------------------------------------------------- copy-producing calls
 def copy_calls(kind, obj, rng):
     """list of (name, f) where f(obj) -> (new object, kind); f is deterministic so it can be replayed on a clone"""
     out = [("copy.deepcopy", lambda o: (copy.deepcopy(o), kind))]
+    terms = {"copy.deepcopy": "CCopy", "copy.copy": "CCopy", "pickle": "CCopy", "copy()": "CCopy"}
     if kind in ('bqm', 'vars'):        # classes that define __copy__; copy.copy of the others is Python's attribute-sharing shallow copy
         out.append(("copy.copy", lambda o: (copy.copy(o), kind)))
     if kind in ('bqm', 'ss', 'vars'):
         out.append(("pickle", lambda o: (pickle.loads(pickle.dumps(o)), kind)))
     if kind == 'vars':
         out += [("copy()", lambda o: (o.copy(), kind)), ("Variables(v)", lambda o: (Variables(o), kind))]
-        return out
+        return with_terms(out, {n: "CCopy" for n, _ in out})
     if kind in ('bqm', 'qm'):
         m = relabel_map(rng, obj.variables)
         k = rng.choice([2, -1, Fraction(1, 2)])
@@ -165,15 +247,31 @@ def copy_calls(kind, obj, rng):
                 ("1+a", lambda o: (1 + o, kind)), ("1-a", lambda o: (1 - o, kind)), ("0-a", lambda o: (0 - o, kind)),
                 ("sum([a])", lambda o: (sum([o]), kind)), ("sum([a,a])", lambda o: (sum([o, o]), kind)),
                 ("a/1", lambda o: (o / 1, kind))]
+        terms.update({"relabel_variables(inplace=False)": f"(CRelabel (assoc_fn {pairs_term(m)}))",
+                      "a+a": "(CAdd @SRC@)", "sum([a,a])": "(CAdd @SRC@)", "k*a": f"(CScale {cq(k)})",
+                      "a-1": "(CAddConst (qc (-1) 1))", "a+1": "(CAddConst (qc 1 1))", "1+a": "(CAddConst (qc 1 1))",
+                      "-a": "CNeg", "0-a": "CNeg"})
+        terms.update({n: "(CAddConst (qc 0 1))" for n in ("0+a", "0.0+a", "a+0", "a-0", "sum([a])")})
+        terms.update({n: "(CScale (qc 1 1))" for n in ("1*a", "a*1", "a/1")})
     if kind == 'bqm':
         vt = rng.choice(['SPIN', 'BINARY'])
+        allv = clist([L(v) for v in obj.variables])
+        terms["BQM(bqm)"] = "CCopy"
+        terms["QM.from_bqm"] = "CCopy"
+        terms["change_vartype(inplace=False)"] = ("CCopy" if vt == obj.vartype.name else
+                                                  f"(CBinaryToSpin {allv})" if vt == 'SPIN' else f"(CSpinToBinary {allv})")
+        if obj.num_interactions == 0:
+            terms.pop("a+a", None)       # the same name is used for a*a below
         out += [("BQM(bqm)", lambda o: (dimod.BinaryQuadraticModel(o), kind)),
                 ("change_vartype(inplace=False)", lambda o: (o.change_vartype(vt, inplace=False), kind)),
                 ("QM.from_bqm", lambda o: (dimod.QuadraticModel.from_bqm(o), 'qm')),
                 ("a*a" if obj.num_interactions == 0 else "a+a", (lambda o: (o * o, kind)) if obj.num_interactions == 0 else (lambda o: (o + o, kind)))]
     if kind == 'qm':
+        spins = clist([L(v) for v in obj.variables if obj.vartype(v) is dimod.SPIN])
+        terms["spin_to_binary(inplace=False)"] = f"(CSpinToBinary {spins})"
         out += [("spin_to_binary(inplace=False)", lambda o: (o.spin_to_binary(inplace=False), kind))]
     if kind == 'cqm':
+        terms = {"copy.deepcopy": "CCopy"}
         m = relabel_map(rng, obj.variables)
         vs = list(obj.variables)
         fixv = rng.choice(vs) if vs else None
@@ -190,6 +288,19 @@ def copy_calls(kind, obj, rng):
         sub = rng.sample(vs, rng.randint(0, len(vs)))
         newl = fresh_label(rng, vs)
         c = float(rng.choice(DY))
+        subl = clist([L(v) for v in sub])
+        terms.update({
+            "relabel_variables(inplace=False)": f"(CSet (ORelabel {pairs_term(m)}))",
+            "change_vartype(inplace=False)": f"(CSet (OChangeVt {vt} (qc 1 1) false))",
+            "slice(sorted_by=None)": f"(CSet (OSlice None (Some {cz(a)}) (Some {cz(b)}) None))",
+            "slice(all,sorted_by=None)": "(CSet (OSlice None None None None))",
+            "truncate(sorted_by=None)": f"(CSet (OSlice None None (Some {cz(b)}) None))",
+            "lowest": f"(CSet (OLowest {cq(F(1.e-5))} (qc 1 2)))",
+            "filter": f"(CSet (OFilter (PEnLe {cq(F(c))})))", "filter(all)": "(CSet (OFilter PTrue))",
+            "aggregate": "(CSet OAggregate)", "concatenate([a])": "(CConcat [])", "concatenate([a,a])": "(CConcat [@SRC@])",
+            "keep_variables": f"(CSet (OKeep {subl} false))", "drop_variables": f"(CSet (ODrop {subl}))",
+            "append_variables": f"(CSet (OAppendVars [{L(newl)}] [[qc 1 1]] true))",
+            "append_data_vectors": "(CSet (OAppendVec 1%%nat %s))" % clist([cq(i) for i in range(len(obj))])})
         out += [("copy()", lambda o: (o.copy(), kind)),
                 ("relabel_variables(inplace=False)", lambda o: (o.relabel_variables(dict(m), inplace=False), kind)),
                 ("change_vartype(inplace=False)", lambda o: (o.change_vartype(vt, energy_offset=1.0, inplace=False), kind)),
@@ -207,14 +318,17 @@ def copy_calls(kind, obj, rng):
                 ("append_variables", lambda o: (dimod.append_variables(o, {newl: 1}), kind)),
                 ("append_data_vectors", lambda o: (dimod.append_data_vectors(o, extra=np.arange(len(o), dtype=float)), kind)),
                 ("from_samples(ss)", lambda o: (dimod.SampleSet.from_samples(o, o.vartype, energy=o.record.energy), kind))]
-    return out
+    return with_terms(out, terms)
 
 
 # ---------------------------------------------------------------------------- in-place edits
 def edits(kind, obj, rng, is_view=False):
-    """list of (name, f) with f(handle object) mutating in place"""
+    """list of (name, f, Heap.v term or None) with f(handle object) mutating in place"""
     out = []
+    terms = {}
     b = float(rng.choice(DY))
+    if kind in ('bqm', 'qm') and not is_view:
+        terms.update({"scale": "(IScale (qc 2 1))", "offset": f"(IAddConst {cq(F(b))})"})
     if kind in ('bqm', 'qm', 'expr'):
         vs = list(obj.variables)
         u = rng.choice(vs) if vs else None
@@ -244,6 +358,7 @@ def edits(kind, obj, rng, is_view=False):
                 u = rng.choice(vs)
                 out += [("fix_variable", lambda o: o.fix_variable(u, 1)), ("set_upper_bound", lambda o: o.set_upper_bound(u, o.upper_bound(u)) if o.vartype(u).name in ('BINARY', 'SPIN') else o.set_upper_bound(u, o.upper_bound(u) + 1))]
         out += [("relabel_variables(inplace=True)", lambda o: o.relabel_variables(dict(m), inplace=True))]
+        terms["relabel_variables(inplace=True)"] = f"(IRelabel (assoc_fn {pairs_term(m)}))"
         if vs:
             w = rng.choice(vs)
             out += [("remove_variable", lambda o: o.remove_variable(w))]
@@ -272,8 +387,10 @@ def edits(kind, obj, rng, is_view=False):
         out += [("relabel_variables(inplace=True)", lambda o: o.relabel_variables(dict(m), inplace=True)),
                 ("change_vartype(inplace=True)", lambda o: o.change_vartype(vt, inplace=True)),
                 ("info[k]=", lambda o: o.info.__setitem__('k', i))]
+        terms.update({"relabel_variables(inplace=True)": f"(ISet (ORelabel {pairs_term(m)}))",
+                      "change_vartype(inplace=True)": f"(ISet (OChangeVt {vt} (qc 0 1) true))"})
         if len(obj) and len(obj.variables):
-            out += [("record.sample[i,j]=", lambda o: o.record.sample.__setitem__((i % len(o), i % len(o.variables)), 1 - o.record.sample[i % len(o), i % len(o.variables)]) if len(o) and len(o.variables) else None),
+            out += [("record.sample[i,j]=", lambda o: o.record.sample.__setitem__((i % len(o), i % len(o.variables)), (-o.record.sample[i % len(o), i % len(o.variables)] if o.vartype is dimod.SPIN else 1 - o.record.sample[i % len(o), i % len(o.variables)])) if len(o) and len(o.variables) else None),
                     ("record.energy[i]+=", lambda o: o.record.energy.__setitem__(i % len(o), o.record.energy[i % len(o)] + 1) if len(o) else None),
                     ("record.num_occurrences[i]=", lambda o: o.record.num_occurrences.__setitem__(i % len(o), 7) if len(o) else None)]
     if kind == 'vars':
@@ -285,7 +402,7 @@ def edits(kind, obj, rng, is_view=False):
         if vs:
             u = rng.choice(vs)
             out += [("_remove", lambda o: o._remove(u))]
-    return out
+    return with_terms(out, terms)
 
 
 IDENTITY = {"copy.copy", "copy.deepcopy", "pickle", "copy()", "Variables(v)"}
@@ -305,6 +422,9 @@ def run_case(c):
     vtab = {}
     handles = []
     fail = None
+    global HT
+    HT = LabelTable()
+    HL = HeapLog()
 
     def sid(s):
         k = json.dumps(s, sort_keys=True)
@@ -331,10 +451,14 @@ def run_case(c):
 
     obj, kind = build(c["kind"], rng)
     handles.append(Handle(obj, kind))
+    ncopies = 0
     try:
         hist.append(cpair(f"(ONew {cnat(sid(snap(obj, kind)))})", clist([cnat(i) for i in dump()])))
-        ncopies = 0
-        for sseed in c["steps"]:
+        HL.new(0, handles)
+        HL.flush(handles)
+
+        def do_one(sseed):
+            nonlocal fail, ncopies
             r = wlib.Rng(sseed)
             owners = [i for i, h in enumerate(handles) if h.parent is None]
             act = r.choice(['copy', 'copy', 'edit', 'edit', 'edit', 'view', 'move', 'discrete', 'concat2'])
@@ -348,8 +472,8 @@ def run_case(c):
                 if h.kind == 'expr':
                     calls = [("copy.deepcopy", lambda o: (copy.deepcopy(o), 'qm'))] if False else []
                 if not calls:
-                    continue
-                name, f = r.choice(calls)
+                    return
+                name, f, hterm = r.choice(calls)
                 feats["op"] = name
                 before = [sid(snap(x.obj, x.kind)) for x in handles]
                 cl = clone(ow.obj, ow.kind)
@@ -374,16 +498,18 @@ def run_case(c):
                     after = [sid(snap(x.obj, x.kind)) for x in handles]
                     if after != before:
                         fail = fail or f"raising {name} changed a live object"
-                    continue
+                    return
                 if expected is None:
                     fail = fail or f"{name} raised {eexc} on the clone but not on the object"
-                    continue
+                    return
                 if nobj is h.obj:
                     fail = fail or f"{name} returned the receiver itself"
                     feats["returned_self"] = True
-                    continue
+                    return
                 handles.append(Handle(nobj, nkind, via=name))
                 ncopies += 1
+                # Heap.v: the call with its real parameters when the receiver is an owning handle, else the given result
+                HL.copy(i if h.parent is None else h.parent, len(handles) - 1, handles, hterm if h.parent is None else None)
                 if name == "pickle" and nkind == 'bqm' and list(nobj.variables) != list(h.obj.variables):
                     feats["pickle_reorders_variables"] = True
                 if name == "concatenate([a])" and np.shares_memory(nobj.record, h.obj.record):
@@ -394,12 +520,12 @@ def run_case(c):
                 # not, must be left bit-for-bit unchanged (later inputs are re-ordered / converted on the way in)
                 ssi = [i for i in owners if handles[i].kind == 'ss']
                 if not ssi or len(handles) > 3:
-                    continue
+                    return
                 i = r.choice(ssi)
                 a = handles[i].obj
                 nv = len(a.variables)
                 if nv == 0:
-                    continue        # numpy.ma cannot stack the zero-width sample field (IndexError inside numpy)
+                    return        # numpy.ma cannot stack the zero-width sample field (IndexError inside numpy)
                 perm = list(range(nv))
                 mode = r.choice(['reverse', 'reverse', 'shuffle', 'same'])
                 if mode == 'reverse':
@@ -419,6 +545,7 @@ def run_case(c):
                 handles.append(Handle(partner, 'ss'))
                 pi = len(handles) - 1
                 emit(f"(ONew {cnat(sid(snap(partner, 'ss')))})")
+                HL.new(pi, handles)
                 order = r.choice(['pa', 'ap', 'pap', 'apa'])
                 feats["op"] = "concatenate(%s,%s)" % (order, mode)
 
@@ -429,15 +556,18 @@ def run_case(c):
                     expected = sid(snap(eobj, 'ss'))
                 except TypeError as e:
                     if 'Incompatible type' in str(e):
-                        continue
+                        return
                     raise
                 nobj = cat(a, partner)
                 handles.append(Handle(nobj, 'ss', via="concatenate"))
                 emit(f"(OCopy {cnat(i)} {cnat(expected)})")
+                hidx = {'a': i, 'p': pi}
+                HL.copy(hidx[order[0]], len(handles) - 1, handles,
+                        "(CConcat %s)" % clist([cnat(HL.cell[hidx[ch]]) for ch in order[1:]]))
             elif act == 'view':
                 cands = [i for i in owners if handles[i].kind in ('bqm', 'cqm')]
                 if not cands or len(handles) >= 5:
-                    continue
+                    return
                 i = r.choice(cands)
                 h = handles[i]
                 w = (0 if h.obj.vartype is dimod.BINARY else 1) if h.kind == 'bqm' else 2   # (.binary of a BINARY model is the model itself)
@@ -451,9 +581,10 @@ def run_case(c):
                     if len(handles) < 5:
                         handles.append(Handle(dimod.ConstrainedQuadraticModel(), 'cqm'))
                         emit(f"(ONew {cnat(sid(snap(handles[-1].obj, 'cqm')))})")
-                    continue
+                        HL.new(len(handles) - 1, handles)
+                    return
                 if len(handles) >= 5:
-                    continue
+                    return
                 ci = r.choice(cq_)
                 cqm = handles[ci].obj
                 tagd = r.randint(0, 9999)
@@ -471,6 +602,7 @@ def run_case(c):
                 handles.append(Handle(mod, mkind))
                 mi = len(handles) - 1
                 emit(f"(ONew {cnat(sid(snap(mod, mkind)))})")
+                HL.new(mi, handles)
                 api = r.choice(['add_discrete', 'add_discrete_from_comparison', 'add_discrete_from_model'])
                 kw = {}
                 co = r.choice([None, True, False])
@@ -503,6 +635,8 @@ def run_case(c):
                 if raised != eraised:
                     fail = fail or "add_discrete raises differently from add_discrete_from_model(copy=True) on clones"
                 d_now = dump()
+                if not raised:
+                    HL.ops.append(f"(HAddConstraint {cnat(HL.cell[ci])} {cnat(HL.cell[mi])} {cnat(HL.token('con', lab(lbl)))} {cbool(not moves)})")
                 if moves and not raised:
                     d_mid = list(d_now)
                     d_mid[mi] = before_mi
@@ -517,6 +651,7 @@ def run_case(c):
                         mod.add_variable('BINARY', nl); empty.add_variable('BINARY', nl)
                         mod.add_linear(nl, 1.0); empty.add_linear(nl, 1.0)
                     hist.append(cpair(f"(OEdit {cnat(mi)} {cnat(sid(snap(empty, mkind)))})", clist([cnat(x) for x in dump()])))
+                    HL.edit(mi, handles)
                 else:
                     # copy=True (given or default), or the call raised: the caller's model is not an edited cell,
                     # so the store model demands it bit-for-bit unchanged
@@ -531,7 +666,8 @@ def run_case(c):
                     if not cq_ and ms and len(handles) < 5:
                         handles.append(Handle(dimod.ConstrainedQuadraticModel(), 'cqm'))
                         emit(f"(ONew {cnat(sid(snap(handles[-1].obj, 'cqm')))})")
-                    continue
+                        HL.new(len(handles) - 1, handles)
+                    return
                 ci, mi = r.choice(cq_), r.choice(ms)
                 cqm, mod = handles[ci].obj, handles[mi].obj
                 if any(h.parent == mi for h in handles):
@@ -565,6 +701,8 @@ def run_case(c):
                 if raised != eraised:
                     fail = fail or "add_constraint_from_model raises differently for copy=True and copy=False"
                 d_now = dump()
+                if not raised:
+                    HL.ops.append(f"(HAddConstraint {cnat(HL.cell[ci])} {cnat(HL.cell[mi])} {cnat(HL.token('con', lab(lbl)))} {cbool(bool(cp))})")
                 if not cp and not raised:
                     d_mid = list(d_now)
                     d_mid[mi] = before_mi        # the model learns about the emptied source with the next entry
@@ -586,14 +724,15 @@ def run_case(c):
                         mod.add_variable('BINARY', nl); empty.add_variable('BINARY', nl)
                         mod.add_linear(nl, 1.0); empty.add_linear(nl, 1.0)
                     hist.append(cpair(f"(OEdit {cnat(mi)} {cnat(sid(snap(empty, handles[mi].kind)))})", clist([cnat(x) for x in dump()])))
+                    HL.edit(mi, handles)
             else:
                 i = r.choice(range(len(handles)))
                 h = handles[i]
                 ow = owner_of(h)
                 es = edits(h.kind, h.obj, r, is_view=h.parent is not None)
                 if not es:
-                    continue
-                name, f = r.choice(es)
+                    return
+                name, f, hterm = r.choice(es)
                 feats["edit"] = name
                 cl = clone(ow.obj, ow.kind)
                 if sid(snap(cl, ow.kind)) != sid(snap(ow.obj, ow.kind)):
@@ -616,6 +755,8 @@ def run_case(c):
                     fail = fail or f"edit {name} raised {exc2} on the object and {exc1} on its clone"
                 expected = sid(snap(cl, ow.kind))
                 emit(f"(OEdit {cnat(i)} {cnat(expected)})")
+                HL.edit(i if h.parent is None else h.parent, handles,
+                        hterm if (h.parent is None and exc1 is None and exc2 is None) else None)
                 if h.kind == 'ss' and r.random() < 0.3 and 'nested' in h.obj.info:
                     # nested info values: an edit below the top level of info
                     before = [sid(snap(x.obj, x.kind)) for x in handles]
@@ -636,11 +777,15 @@ def run_case(c):
                             feats["info_nested_shared"] = True
                         feats["via"] = vias[0]
                         fail = fail or ("an edit of a nested info value of one sample set is visible through another (created by %s)" % vias[0])
+        for sseed in c["steps"]:
+            do_one(sseed)
+            HL.flush(handles)
     except ProbeMismatch as e:
         fail = fail or str(e)
         feats["probe_mismatch"] = True
     tab = clist([f"({cnat(w)}, {cnat(p)}, {cnat(v)})" for (w, p), v in vtab.items()])
-    coq = f"(mkCase {tab} {clist(hist)})"
+    import w_c14
+    coq = f"(mkCase {tab} {clist(hist)} {w_c14.coq_K(HT)} {cnat(len(HT) + 1)} {clist(HL.hist)})"
     return {"coq": coq, "py_fail": fail, "features": feats, "nontrivial": len(handles) >= 2 and len(hist) >= 3}
 
 
